@@ -162,6 +162,15 @@ pub fn value_bytes<E: Entry>(g: &mut Gen, st: &mut Stats) -> CaseResult {
         }
         let again = minicbor::to_vec(&v).map_err(|e| vcore::Fail::new("encode-refused", e.to_string()))?;
         ensure!(again == out, "nondeterministic", "encoding {:?} twice gave {} and {}", v, short_hex(&out), short_hex(&again));
+        // the item that reaches a std::io sink through the adapter is the same item, however the sink takes the bytes
+        {
+            let mut w = minicbor::encode::write::Writer::new(crate::checks::c13::Limited::scripted(g, usize::MAX));
+            let r = minicbor::encode(&v, &mut w);
+            let sink = w.into_inner();
+            ensure!(r.is_ok(), "io-sink-failed", "encoding {:?} into an unbounded io::Write ({} short-write/interrupt steps) failed: {:?}", v, sink.script.len(), r.err().map(|e| e.to_string()));
+            ensure!(sink.data == out, "io-sink-bytes", "{:?}: the io::Write sink received {} (script {:?}), a Vec receives {}", v, short_hex(&sink.data), sink.script, short_hex(&out));
+            if sink.interrupts > 0 { st.class("value/io-sink-interrupted") }
+        }
         if out.len() >= 2 {
             if E::UNORDERED { let mut s = out.clone(); s.sort_unstable(); st.nontrivial(hash_of(&(E::NAME, s))) } else { st.nontrivial(hash_of(&(E::NAME, &out))) }
             st.sample(hash_of(&out), || format!("{}: {:?} -> {}", E::NAME, v, short_hex(&out)));
